@@ -747,10 +747,18 @@ def check(prop, tier, only=None):
         seed=seed,
         level="model_checking",
         coverage=dict(
-            evaluations=len(hs),
-            distinct_nontrivial=n_pass,
-            rule="one evaluation = one Kani proof harness decided by CBMC/CaDiCaL over all inputs in its bounds; "
-            "non-trivial = verdict SUCCESSFUL with all unwinding assertions passing and its mandatory reachability witnesses SATISFIED",
+            evaluations=tot_checks,
+            distinct_nontrivial=sum(
+                r.get("parsed", {}).get("status_counts", {}).get("SUCCESS", 0)
+                + r.get("parsed", {}).get("status_counts", {}).get("SATISFIED", 0)
+                for r in results.values()
+            ),
+            rule="one case = one proof obligation of one Kani harness as CBMC lists it (property assertion, panic / "
+            "index / overflow / shift check, unwinding assertion, reachability witness), decided by the SAT solver over all "
+            "inputs in the harness bounds; distinct = distinct (harness, check id); non-trivial = reachable (Kani marks "
+            "unreachable ones UNREACHABLE; they are not counted) and decided SUCCESS (assertions) or SATISFIED (witnesses)",
+            harnesses=len(hs),
+            harnesses_passed=n_pass,
             samples=samples,
             obligations=tot_checks,
             discharged=sum(r.get("parsed", {}).get("status_counts", {}).get("SUCCESS", 0) for r in results.values()),
